@@ -297,6 +297,7 @@ class Exec(object):
     # ------------------------------------------------------------------ assumptions / obligations
     def assume(self, st, fact):
         self.assumptions.append(simp(z3.Implies(st.pc, fact)))
+        self.__dict__.setdefault("assumption_src", {})[len(self.assumptions) - 1] = getattr(self, "_cur_src", None)
 
     def oblige(self, st, kind, label, goal, span=None, expect="unsat", note=None):
         oid = "%s/%s/%s/%s" % (self.prop, self.obl_prefix, kind, label)
@@ -475,6 +476,31 @@ class Exec(object):
         elif typ == "num":
             self.assumptions.append(z3.Or(is_Int(v), is_Float(v)))
         return v
+
+    def type_pred(self, typ, v):
+        if typ == "str":
+            return is_Str(v)
+        if typ == "int":
+            return is_Int(v)
+        if typ == "bool":
+            return is_Bool(v)
+        if typ == "float":
+            return is_Float(v)
+        if typ == "num":
+            return z3.Or(is_Int(v), is_Float(v))
+        if typ == "none":
+            return is_None(v)
+        if typ == "strnone":
+            return z3.Or(is_Str(v), is_None(v))
+        if typ in ("dict", "list", "obj", "tuple"):
+            kind = {"dict": T_DICT, "list": T_LIST, "obj": T_OBJ, "tuple": T_TUPLE}[typ]
+            return z3.And(is_Ref(v), ty(rval(v)) == kind)
+        if typ == "json":
+            return z3.And(z3.Not(is_Fn(v)), z3.Not(is_Opq(v)),
+                          z3.Implies(is_Ref(v), z3.Or(ty(rval(v)) == T_DICT, ty(rval(v)) == T_LIST)))
+        if typ == "fn":
+            return z3.Or(is_Opq(v), is_Fn(v))
+        return None
 
     def lookup_global(self, name, st, ctx, node=None):
         unit = ctx.unit
@@ -1530,12 +1556,21 @@ class Exec(object):
             # calling a contracted function from a spec: use its ensures as a definition of result
             pass
         pre = st.fork()
+        # declared parameter types are preconditions too
+        for pname, typ in sorted(c.types.items()):
+            if pname in bound and typ not in ("any",) and not ctx.spec:
+                tp = self.type_pred(typ, bound[pname])
+                if tp is not None and not is_true(tp):
+                    self.oblige(st, "pre@site", "%s/type-%s" % (label, pname), tp, span=line)
+                    self.assume(st, tp)
         # requires
         for lab, text, n in c.requires:
             g = self.truth(self.eval_spec(n, st.fork(), fid, spec_unit, pre), st)
             if not ctx.spec:
-                self.oblige(st, "pre@site", "%s@%d/%s" % (label, line, lab), g, span=line)
+                self.oblige(st, "pre@site", "%s/%s" % (label, lab), g, span=line)
+            self._cur_src = "requires %s/%s" % (label, lab)
             self.assume(st, g)
+            self._cur_src = None
         # exceptional exits
         for cls, cond in c.raises_ast.items():
             if ctx.spec:
@@ -1602,10 +1637,12 @@ class Exec(object):
             # a contracted *unit* may change any ghost variable; its ensures say how (externals only do
             # what their `ghost=` clause says)
             for g in list(st.ghost):
-                if g in newg or g.startswith("__") or g in getattr(self.reg, "ghost_const", ()) \
-                        or g in self.reg.markers():
+                if g in newg or g.startswith("__") or g in getattr(self.reg, "ghost_const", ()):
                     continue
-                if c.ghost_modifies is not None and g not in c.ghost_modifies:
+                if c.ghost_modifies is None:
+                    if g in self.reg.markers():
+                        continue          # call markers count direct calls only
+                elif g not in c.ghost_modifies:
                     continue
                 t = st.ghost[g]
                 if isinstance(t, Heap):
@@ -1617,9 +1654,14 @@ class Exec(object):
         st.frames[fid]["retval"] = result
         if "result" not in bound:
             st.frames[fid]["result"] = result
+        for g, condn in c.ghost_post.items():
+            cond = self.name_bool(self.truth(self.eval_spec(condn, st.fork(), fid, spec_unit, pre), st))
+            st.ghost[g] = Heap.ite(cond, st.heap, st.ghost[g])
         for lab, text, n in c.ensures:
             g = self.truth(self.eval_spec(n, st, fid, spec_unit, pre), st)
+            self._cur_src = "ensures %s/%s" % (label, lab)
             self.assume(st, g)
+            self._cur_src = None
         st.frames.pop(fid, None)
         return result
 
@@ -1709,6 +1751,7 @@ class Exec(object):
             self.oblige(st, "cover", lab, g, expect="sat")
         pre = st.fork()
         self.pre_state = pre
+        self.pre_ghost = dict(pre.ghost)
         alloc0 = len(self.allocated)
         end = self.exec_block(unit.node.body, st, ctx)
         pairs = list(ctx.returns)
@@ -1729,6 +1772,21 @@ class Exec(object):
                 g = self.truth(self.eval_spec(n, fin, efid, unit, pre), fin)
                 self.oblige(fin, "post", lab, g, span=unit.span()[0])
             self.frame_obligation(c, unit, pre, fin, efid, alloc0, "frame")
+            for g, condn in c.ghost_post.items():
+                cond = self.truth(self.eval_spec(condn, fin.fork(), efid, unit, pre), fin)
+                snap = fin.ghost[g]
+                DV, DP, LS = snap.DV, snap.DP, snap.LS
+                for r in self.allocated[alloc0:]:
+                    # objects allocated by the unit itself (e.g. its result tuple) are not part of the claim
+                    DV = z3.Store(DV, r, z3.Select(fin.heap.DV, r))
+                    DP = z3.Store(DP, r, z3.Select(fin.heap.DP, r))
+                    LS = z3.Store(LS, r, z3.Select(fin.heap.LS, r))
+                self.oblige(fin, "post", "snapshot-%s-is-final-heap" % g,
+                            z3.Implies(cond, z3.And(fin.heap.DV == DV, fin.heap.DP == DP, fin.heap.LS == LS)),
+                            span=unit.span()[0])
+            for lab, text, n in c.covers_exit:
+                g = self.truth(self.eval_spec(n, fin.fork(), efid, unit, pre), fin)
+                self.oblige(fin, "cover", "exit-" + lab, g, expect="sat", span=unit.span()[0])
             if c.ghost_modifies is not None:
                 for g in sorted(fin.ghost):
                     if g in c.ghost_modifies or g in c.ghost or g.startswith("__") or g not in pre.ghost:
